@@ -708,3 +708,11 @@ def _affine(method, code, extra=None):
 
 
 _affine("move", "G1"); _affine("rapid", "G0"); _affine("probe", "G38", probe_args)
+
+
+@unit("GCodeBuilder.rapid[hooks]", ["C20"])
+def u_rapid_hooks(ctx):
+    nh = fresh("n_hooks", z3.IntSort()); ctx.assume(nh >= 1)
+    b = B(ctx, "rapid", motion_args, hooks=nh)
+    for e in b.exits:
+        ctx.check(f"C20 a rapid move calls no hook [{e.kind}@{e.where}]", z3.BoolVal(not any(ev[0] == "hook" for g, ev in e.log)), e, ["C20"], "post")
